@@ -31,6 +31,22 @@ def c14(ck):
                    heap="6g", timeout=3000)
 
 
+def c15(ck):
+    ck.rule = ("operand pool {0, +-1, +-2, +-3, +-7, 10, +-2^31, +-2^62, MAX-1, MAX, MIN, MIN+1} as integers, as numeric strings and as "
+               "floats, plus nil / bool / array / non-numeric and decimal strings: every ordered pair x {plus, minus, times, "
+               "divided_by, modulo, at_least, at_most}; every pair of k/8 (|k| <= 12 quick, 40 thorough) x the same filters; abs, ceil, "
+               "floor, round on every operand; integer divided_by and modulo of the same pair are checked together; "
+               "non-trivial = the left operand is a number")
+    ck.assumptions = ["a double result is accepted when it equals the exact rational result if that is a double, else within 2^-53 relative "
+                      "error (2^-52 for the float fallback of an overflowing integer operation); IEEE rounding itself is not recomputed",
+                      "ceil/floor/round are claimed for results within the 64-bit range"]
+    corpus = os.path.join(driver.WORK, "C15_%s_cases.json" % ck.tier)
+    cfg = "MC_C15_quick.cfg" if ck.tier == "quick" else "MC_C15_thorough.cfg"
+    ck.replay_stage("relation-laws", "MC_C15", cfg, tee=corpus, tlc_workers=10, timeout=3400)
+    ck.trace_stage("outcomes", ["math", "--corpus", corpus], "Trace_Math", "Trace_Math.cfg", heap="3g", timeout=3400,
+                   split=10, boundary=None)
+
+
 def c16(ck):
     ck.rule = ("escape / escape_once: every string of length <= 4 (thorough 5) over {< > & \" ' ; # a l t m p space e-acute} and "
                "every sequence of <= 3 (4) entity-level tokens (the five entities, bare &, &amp without ;, &lt;;, &#39 without ;); "
@@ -200,7 +216,7 @@ def c20(ck):
     ck.trace_stage("realthreads", ["threads", "--runs", runs], "Trace_Threads", "Trace_Threads.cfg", heap="8g", timeout=3000)
 
 
-PROPS = {"C03": c03, "C04": c04, "C06": c06, "C07": c07, "C08": c08, "C09": c09, "C10": c10, "C13": c13, "C14": c14, "C16": c16, "C19": c19, "C20": c20, "C05": c05, "C18": c18}
+PROPS = {"C03": c03, "C04": c04, "C06": c06, "C07": c07, "C08": c08, "C09": c09, "C10": c10, "C13": c13, "C14": c14, "C15": c15, "C16": c16, "C19": c19, "C20": c20, "C05": c05, "C18": c18}
 
 
 def replay_file(prop, path):
